@@ -444,7 +444,8 @@ def gen_cases(types, tier, seed):
         for path in leaf_paths(node):
             tag, n = node_at(node, path)
             has_list = any(node_at(node, path[:j + 1])[1]["k"] == "seq" for j in range(len(path) - 1))
-            for leaf in leaf_variants(n, tag, r, tier):
+            # the full 65536 single-id sweep only where the id list is a top-level field (Service, Pdu09Service)
+            for leaf in leaf_variants(n, tag, r, tier if not (n["k"] == "pint" and len(path) > 1) else "quick"):
                 cases.append((ti, on_path(node, path, leaf, 1), "path"))
                 if has_list:
                     cases.append((ti, on_path(node, path, leaf, 2), "path-x2"))
